@@ -1,6 +1,7 @@
 package props
 
 import (
+	"image/color"
 	"bytes"
 	"fmt"
 	"runtime"
@@ -42,7 +43,7 @@ func checkC12Anim(c *c12AnimCase, o *core.Obs) error {
 	hookMu.Lock()
 	defer hookMu.Unlock()
 	imgs, durs := seqImages(c.Seq)
-	eo := &animation.EncodeOptions{Lossless: c.Lossless, AllowMixed: c.Mixed, Quality: 70, Kmin: c.Seq.Kmin, Kmax: c.Seq.Kmax, LoopCount: clampLoop(c.Seq.Loop)}
+	eo := &animation.EncodeOptions{Lossless: c.Lossless, AllowMixed: c.Mixed, Quality: 70, Kmin: c.Seq.Kmin, Kmax: c.Seq.Kmax, LoopCount: clampLoop(c.Seq.Loop), BackgroundColor: color.NRGBA{R: c.Seq.BG[0], G: c.Seq.BG[1], B: c.Seq.BG[2], A: c.Seq.BG[3]}}
 	var ref []byte
 	var refFrames [][]byte
 	engaged := map[string]bool{}
